@@ -1010,6 +1010,9 @@ func init() {
 	})
 	reg("Close", func(m *Machine, fn *ssa.Function, a []Value) Value { return m.K.sysClose(intArg(m, a[0], "fd")) })
 	reg("Fsync", func(m *Machine, fn *ssa.Function, a []Value) Value { return m.K.sysFsync(intArg(m, a[0], "fd")) })
+	// fdatasync flushes the data and the metadata needed to read it back (the size): in this model
+	// the same operation as fsync, recorded under the same name
+	reg("Fdatasync", func(m *Machine, fn *ssa.Function, a []Value) Value { return m.K.sysFsync(intArg(m, a[0], "fd")) })
 	reg("Fstat", func(m *Machine, fn *ssa.Function, a []Value) Value {
 		k := m.K
 		fd := intArg(m, a[0], "fd")
